@@ -31,6 +31,10 @@ RULE = (
     "conditions, in two modes: paths retained (as run_test does through the futures) and paths dropped with gc.collect() between "
     "queries; histories also produced by the real SEVM on generated multi-path programs; every (id, sexpr digest) serialised is "
     "recorded and IdStable is evaluated; the Lean run model is replayed on the recorded ids/solver answers; "
+    "(b2) run level: function-level histories made only of real Path.branch()/activate() sequences (as SEVM.jumpi produces them: "
+    "true branch parked, false branch continued, finished path dropped + gc, sibling activated, fresh conditions appended one by one) "
+    "and real SEVM explorations of multi-JUMPI programs consumed lazily; id->sexpr monitor over the whole history (IdStable must hold "
+    "on the unchanged tree) and cache-on vs cache-off vs z3 after every query; "
     "(c) a directed sweep (shapes of freed/unsat condition x shapes of new condition x number of intervening allocations) for a "
     "*top-level* condition that gets the ast id of a freed one, then the real pipeline is run on each recipe found. "
     "A case is distinct by its text / history digest / recipe."
@@ -296,8 +300,136 @@ def correspond(ctx):
         n, _ = run_history(f"sevm{pi}:{desc[:60]}", gen(), "yices" if pi % 2 else "z3", retain)
         ctx.count(f"sevm-history-queries:{min(n, 16)}")
 
-    retained_unstable = [u for u in unstable if False]
     ctx.extra["id_stable_violations_in_histories"] = len(unstable)
+
+    # =============================================================== (b2) run level: real Path.branch()/activate() histories
+    # One function-level history = one root Path, one shared z3 solver, one SolvingContext.  Paths are created only through
+    # Path.branch() (as SEVM.jumpi does), parked, and activated after the current path has been finished and dropped.
+    # On the unchanged tree every condition of the history stays alive (the memo dict shared by all paths of a function holds
+    # the terms), so no ast id may ever be seen with two different conditions, and cache-on == cache-off after every query.
+    from halmos.utils import create_solver
+
+    def path_history(tag, solver_name, steps):
+        on = Pipeline(eng, True, solver_cmds[solver_name])
+        off = Pipeline(eng, False, solver_cmds[solver_name])
+        hist_seen, core_ids, breaches, flips, nq = {}, set(), [], [], 0
+        xs = [z3.BitVec(f"p_h{k}_uint256", 256) for k in range(3)]
+        zs = [z3.BitVec(f"p_j{k}_uint256", 256) for k in range(4)]
+        ys = [z3.BitVec(f"p_y{k}_uint256", 256) for k in range(steps + 2)]
+
+        def ask(path, what):
+            nonlocal nq
+            nq += 1
+            for c in path.conditions:
+                i, d = str(c.get_id()), hashlib.sha1(c.sexpr().encode()).hexdigest()[:16]
+                old = hist_seen.setdefault(i, (d, c.sexpr()[:90]))
+                if old[0] != d:
+                    breaches.append((i, old[1], c.sexpr()[:90], i in core_ids))
+            conds = list(path.conditions)
+            t = truth(conds)
+            v_on, ids, core, new = on.query(path)
+            v_off, _, _, _ = off.query(path)
+            for c in new:
+                core_ids.update(c)
+            ctx.count(f"path-history:{what}:on={v_on}:off={v_off}")
+            if v_on != v_off or (t in ("sat", "unsat") and v_on in ("sat", "unsat") and v_on != t):
+                flips.append((nq, ids, v_on, v_off, t, [c.sexpr()[:70] for c in conds][:5]))
+            return v_on
+
+        c0 = rng.choice([5, 7, 100, 2**128]) + rng.randrange(3)
+        cur = Path(create_solver())
+        cur.append(z3.ULT(xs[0], z3.BitVecVal(c0, 256)), branching=True)
+        parked = []
+        for k in range(rng.randrange(1, 4)):      # JUMPIs: park the true branch, go on as the false branch
+            jc = zs[k] == z3.BitVecVal(1, 256)
+            parked.append(cur.branch(jc))
+            cur.append(z3.Not(jc), branching=True)
+            del jc
+        # the deepest false branch runs into a contradiction that only the external solver sees
+        cur.append(z3.UGT(xs[0], z3.BitVecVal(c0 + 5, 256)), branching=True)
+        ask(cur, "contradiction")
+        del cur
+        gc.collect()
+        budget = steps
+        while parked:
+            p = parked.pop()                      # DFS order, like SEVM's worklist
+            p.activate()
+            n = budget if not parked else rng.randrange(2, 6)
+            for k in range(n):
+                kind = rng.random()
+                if kind < 0.7:
+                    p.append(ys[k] == ys[k + 1], branching=True)
+                elif kind < 0.85:
+                    p.append(z3.ULT(ys[k], z3.BitVecVal(rng.randrange(10, 10**6), 256)), branching=True)
+                else:
+                    p.append(z3.Not(ys[k] == z3.BitVecVal(rng.randrange(10**6), 256)), branching=True)
+                ask(p, "sibling")
+            if parked and rng.random() < 0.5:     # this sibling also dies in a contradiction of its own
+                p.append(z3.UGT(xs[1], xs[2]), branching=True)
+                p.append(z3.UGT(xs[2], xs[1]), branching=True)
+                ask(p, "contradiction")
+            del p
+            gc.collect()
+        cores = [list(c) for c in on.fctx.solving_ctx.unsat_cores]
+        on.close()
+        off.close()
+        ctx.case(f"pathhist|{tag}|{solver_name}|{nq}|{cores}", nontrivial=bool(cores))
+        where = f"history {tag} ({solver_name}, {nq} queries, real Path.branch/activate, finished paths dropped + gc)"
+        for i, old, newc, in_core in breaches[:1]:
+            key = ("unsat-core-cache:path-history:condition-freed-while-core-cached" if any(b[3] for b in breaches)
+                   else "unsat-core-cache:path-history:ast-id-reused-within-function")
+            b = next((b for b in breaches if b[3]), breaches[0])
+            ctx.violation(key, f"{where}: ast id {b[0]} was serialised for {b[1]!r} and later for {b[2]!r} "
+                               f"({len(breaches)} breaches of IdStable; cached cores {cores})", {"kind": "path-history", "tag": tag})
+        for f in flips[:1]:
+            ctx.violation("unsat-core-cache:path-history:verdict-flipped",
+                          f"{where}: query {f[0]} ids {f[1]} conditions {f[5]}: cache-on {f[2]}, cache-off {f[3]}, z3 says {f[4]}; cached cores {cores}",
+                          {"kind": "path-history", "tag": tag})
+        return nq, len(breaches), len(flips)
+
+    tot = [0, 0, 0]
+    for hi in range(ctx.scale(5, 40)):
+        r = path_history(f"branch{hi}", "yices" if hi % 3 else "z3", steps=ctx.scale(40, 80))
+        tot = [a + b for a, b in zip(tot, r)]
+
+    # the same through the real SEVM: programs with several JUMPIs on symbolic calldata, paths taken lazily from the DFS
+    # generator and dropped after their query (parked siblings live on SEVM's worklist)
+    for pi in range(ctx.scale(4, 30)):
+        items, desc = K.gen_program(rng, rng.choice([3, 4, 4]), [i for i in ints if i < 2**256] + [3, 5, 7], nvars=3, ops=["ADD", "SUB", "AND"])
+        code = K.asm(items)
+        name = "yices" if pi % 2 else "z3"
+        on, off = Pipeline(eng, True, solver_cmds[name]), Pipeline(eng, False, solver_cmds[name])
+        hist_seen, nb, nf, nq = {}, 0, 0, 0
+        try:
+            it = eng.run_iter(code)
+            for ex in it:
+                path = ex.path
+                for c in path.conditions:
+                    i, d = c.get_id(), hashlib.sha1(c.sexpr().encode()).hexdigest()[:16]
+                    if hist_seen.setdefault(i, d) != d:
+                        nb += 1
+                v_on = on.query(path)[0]
+                v_off = off.query(path)[0]
+                nq += 1
+                ctx.count(f"path-history:sevm:on={v_on}:off={v_off}")
+                if v_on != v_off:
+                    nf += 1
+                    ctx.violation("unsat-core-cache:path-history:verdict-flipped",
+                                  f"SEVM program {desc[:80]} ({name}): path {nq}: cache-on {v_on}, cache-off {v_off}", {"kind": "path-history-sevm", "desc": desc})
+                del ex, path
+                gc.collect()
+            del it
+        except Exception as e:
+            ctx.count(f"engine-error:{type(e).__name__}")
+        if nb:
+            ctx.violation("unsat-core-cache:path-history:ast-id-reused-within-function",
+                          f"SEVM program {desc[:80]} ({name}): {nb} ast ids were serialised for two different conditions within one exploration "
+                          f"({nq} paths, each dropped after its query)", {"kind": "path-history-sevm", "desc": desc})
+        ctx.case(f"pathhist-sevm|{desc}|{nq}", nontrivial=nq > 2)
+        tot = [tot[0] + nq, tot[1] + nb, tot[2] + nf]
+        on.close()
+        off.close()
+    ctx.extra["path_history"] = {"queries": tot[0], "idstable_breaches": tot[1], "flips": tot[2]}
 
     # =============================================================== (c) directed search for a recycled top-level id
     shapesA = {
